@@ -24,6 +24,11 @@ CLAIMED = {
 		text='Proved at the normalisation boundaries: SyntaxParserOfLark.__load_entry lets only Errors.Syntax escape on both the on-disk and the in-memory branch although parser and source provider may raise anything; Procedure.__emit turns whatever a handler raises into an application error; the quotation line loader does not fail when the reported line exists. A bounded CLI twin feeds unparsable files through the real pipeline. Exception freedom of the code between the boundaries and termination are not decided.',
 		note='externals that "may raise anything" (lark, source provider, handlers) are over-approximated; raises sets are computed from the real ASTs including every implicit failure source',
 		ref='DESIGN.md §4 C07'),
+	'C08': dict(
+		level='proof',
+		text='Partial: DSN.elements / elem_counts / relativefy (non-prefix and equal cases) are proved against element-structure specifications, with the split-over-concatenation lemmas by induction; the prefix case of relativefy is a labelled bounded clause. The name-handling code that iterates and mutates aliased dicts (VarsCollector) and the node definition classes are reached only by two bounded twins (sibling-scope collection; node tree commutes with five families of injective renamings). The whole-pipeline commutation with renaming is not decided by this family.',
+		note='parametricity meta-argument not machine-checked; most of the statement (relational, whole program) is bounded or undecided -- see evidence.bounded_checks',
+		ref='DESIGN.md §4 C08'),
 	'C09': dict(
 		level='proof',
 		text='Procedure.__stack_pop/__result/__make_event/__emit/__run_action/__action/__exec_impl/exec are verified against the stack discipline over an abstract Node interface: the event holds, per declared property, exactly the results of that property\'s nodes (list vs single, source order), exactly those are consumed, one result is pushed, results below are untouched, exec restores the stack of stacks. The induction over the whole tree and the node classes themselves are validated by a bounded monitor on real modules (never counted as proved).',
@@ -54,7 +59,7 @@ NOT_APPLICABLE = {
 	'C02': 'equality of two parsers over all texts (lark LALR engine interpreting grammar data vs CPython): no function contract of tranp carries it; only differential testing could, which is a different family (DESIGN.md §5)',
 	'C03': 'type soundness of the inference engine against CPython run-time types needs formal semantics of both languages and the stub library; not expressible as a contract over one call or data structure (DESIGN.md §5)',
 }
-PENDING = {p: 'designed in DESIGN.md §4, contracts not built yet in this round' for p in ['C01','C04','C08','C10','C11','C12','C13','C14']}
+PENDING = {p: 'designed in DESIGN.md §4, contracts not built yet in this round' for p in ['C01','C04','C10','C11','C12','C13','C14']}
 
 def main():
 	checks = []
